@@ -465,4 +465,4 @@ def r04n(F):
 	]
 
 RULES.append(('04.n', 'payment-secret expiry: the array the expiry is decoded from has its custom-CLTV-delta bytes masked to zero, the amount array does not (data-flow rule on inbound_payment::verify)', r04n))
-RULES.append(('04.N', 'arithmetic census: per reviewed function the number of operations per (group: add/sub, mul, div, rem, shift, bit, min, max, div_ceil ...; flavour: plain / checked / saturating / wrapping) is unchanged - a dropped or added `+ 1`, a rounding direction, saturating for checked, min for max (rules/arith.py; value arithmetic itself is not decided)', lambda F: arith.for_property(F, 'C04', '04.N')))
+RULES.append(('04.N', 'arithmetic census: per reviewed function the set of operation kinds (group: add/sub, mul, div, rem, shift, bit, min, max, div_ceil ...; flavour: plain / checked / saturating / wrapping) keeps its kinds: no reviewed function lost or gained a kind of arithmetic altogether - a rounding direction (`/` for div_ceil), saturating for checked, min for max (rules/arith.py; counts and value arithmetic itself are not judged)', lambda F: arith.for_property(F, 'C04', '04.N')))
